@@ -43,11 +43,16 @@ impl Buildpack for SimBp {
     type Metadata = GenericMetadata;
     type Error = SimErr;
 
-    fn detect(&self, _: DetectContext<Self>) -> libcnb::Result<DetectResult, Self::Error> {
-        unreachable!("E1 never runs detect")
+    // E1 drives the layer API directly and never reaches these; in the `simbp` executable
+    // (E2) they run the scripted author code.
+    fn detect(&self, ctx: DetectContext<Self>) -> libcnb::Result<DetectResult, Self::Error> {
+        crate::e2::bp::detect(ctx)
     }
-    fn build(&self, _: BuildContext<Self>) -> libcnb::Result<BuildResult, Self::Error> {
-        unreachable!("E1 never runs build")
+    fn build(&self, ctx: BuildContext<Self>) -> libcnb::Result<BuildResult, Self::Error> {
+        crate::e2::bp::build(ctx)
+    }
+    fn on_error(&self, error: libcnb::Error<Self::Error>) {
+        crate::e2::bp::on_error(&error);
     }
 }
 
@@ -344,6 +349,19 @@ impl World {
             names,
             refs: HashMap::new(),
         })
+    }
+
+    /// Wrap the context the real runtime handed to `build` (E2).
+    pub fn from_context(ctx: BuildContext<SimBp>, root: &Path, layers: &[String]) -> World {
+        World {
+            root: root.to_path_buf(),
+            ctx,
+            names: layers
+                .iter()
+                .map(|l| l.parse::<LayerName>().expect("layer name"))
+                .collect(),
+            refs: HashMap::new(),
+        }
     }
 
     pub fn snapshot(&self) -> std::io::Result<Snap> {
